@@ -221,7 +221,10 @@ theorem walk_moltype (F : TabFacts tab idxTab tbl) (a b : String) (ha : C02.tokS
     walkX (paramsX idxTab tab) ⟨none, { sec := ["moleculetype"], blk := some (i0, c), blocks := bl }, i⟩
         (cls (.moltype a b))
       = some ⟨none, { sec := ["moleculetype"],
-                      blk := some (i0, { c with base := { c.base with name := some a }, nrexcl := some b }),
+                      blk := some (i0,
+                        { c with
+                          base := { c.base with name := some a, nrexcl := some ((pyInt? b).getD 0) }
+                          nrexcl := some b }),
                       blocks := bl }, i + 1⟩ := by
   obtain ⟨a0, ar, hae, ha0w, ha0s⟩ := tok_head a ha
   obtain ⟨z, hz, hzw⟩ := tok_last (a.toList ++ [' ']) b hb
